@@ -165,15 +165,6 @@ Definition adjust_code (i : ainput) (o : list Z * list Z * list Z) : Z :=
     (if eq_listZ root old || unprotected_existingb i root then 0 else 306)
   else if eq_listZ root ctr then 0 else 308.
 
-(* the only known way a protected cpu reaches BE: a later pod of another class lists a cpu of an
-   LSE pod, which overwrites the LSE entry of cpuIdToPool *)
-Definition lse_overwritten (i : ainput) (c : Z) : bool :=
-  lse_owned (a_pods i) c && negb (pool_of (a_pods i) c =? Q_LSE).
-(* pod annotations are consistent: no cpu of an LSE pod is also listed by a later pod of
-   another class *)
-Definition consistent (i : ainput) : bool :=
-  forallb (fun c => negb (lse_overwritten i c)) (map cpu (a_procs i)).
-
 (* ================================================================ quota *)
 
 Definition quota_holds (budget_milli cap_milli cur obs : Z) : Prop :=
